@@ -805,6 +805,7 @@ def register(M):
         return UNIT
     for t in ('Vec', '[array]', 'slice'):
         reg(t, None, 'sort_by_key', vec_sort_by_key)
+        reg(t, None, 'sort_by_cached_key', vec_sort_by_key)
 
     def slice_chunks(exact):
         def h(m, a, k):
@@ -1132,6 +1133,26 @@ def register(M):
         return some(Ref(Cell(x))) if x is not None else NONE
     reg('Peekable', None, 'peek', peek)
     reg('Iter', None, 'peek', peek)
+
+    # ---- RefCell (single-threaded interior mutability: the borrow flag is not modelled) ------------
+    reg('RefCell', None, 'new', lambda m, a, k: Adt('RefCell', 0, (a[0],)))
+
+    def refcell_borrow(m, a, k):
+        r = innermost_ref(m, a[0])
+        return Ref(r.cell, r.path + (0,))
+    reg('RefCell', None, 'borrow', refcell_borrow)
+    reg('RefCell', None, 'borrow_mut', refcell_borrow)
+    for t in ('RefMut', 'Ref', 'std::cell::RefMut', 'std::cell::Ref'):
+        reg(t, 'Deref', 'deref', lambda m, a, k: innermost_ref(m, a[0]))
+        reg(t, 'DerefMut', 'deref_mut', lambda m, a, k: innermost_ref(m, a[0]))
+
+    def opt_get_or_insert_with(m, a, k):
+        r = innermost_ref(m, a[0])
+        o = val(m, r)
+        if o.var == 0:
+            store(r, some(call_closure(m, a[1], [])), m.ctx.resolve)
+        return Ref(r.cell, r.path + (0,))
+    reg('Option', None, 'get_or_insert_with', opt_get_or_insert_with)
 
     # ---- OnceCell -------------------------------------------------------------------------------
     reg('OnceCell', None, 'new', lambda m, a, k: Adt('OnceCell', 0, (NONE,)))
